@@ -16,6 +16,7 @@
 package c05
 
 import (
+	"crypto/tls"
 	"encoding/json"
 	"fmt"
 	"io"
@@ -37,7 +38,7 @@ type c05Case struct {
 	Carrier    string `json:"carrier"` // tcp+tls wss tcp+starttls ws+starttls udp+starttls dns+starttls | udp (secret, no StartTLS)
 	Cert       string `json:"server_cert"`
 	Insecure   bool   `json:"client_insecure"`
-	ClientCert string `json:"client_cert"` // none own foreign
+	ClientCert string `json:"client_cert"` // none own foreign foreign-forced
 	Require    bool   `json:"require_client_cert"`
 	Host       string `json:"upstream_host"` // localhost 127.0.0.1 domain (dns: the tunnel domain)
 	SrvSecret  string `json:"server_secret,omitempty"`
@@ -47,7 +48,12 @@ type c05Case struct {
 
 var carriers = []string{"tcp+tls", "wss", "tcp+starttls", "ws+starttls", "udp+starttls", "dns+starttls"}
 var serverCerts = []string{"Good", "GoodDNS", "IPOnly", "WrongHost", "Untrusted", "Expired"}
-var clientCerts = []string{"none", "own", "foreign"}
+
+// Client certificates: "foreign" is configured in the real client like any certificate (Go's TLS client
+// then withholds it when the server's request names other CAs); "foreign-forced" is a peer that presents
+// the foreign certificate no matter what the server asked for (the real upstream code, with a certificate
+// selection callback in its tls.Config as the only scripted part).
+var clientCerts = []string{"none", "own", "foreign", "foreign-forced"}
 
 func hostsOf(carrier string) []string {
 	if strings.HasPrefix(carrier, "dns") {
@@ -165,6 +171,26 @@ func start(c *c05Case) (*e2e.Pair, error) {
 	if c.Host == "localhost" {
 		o.UpstreamHost = "localhost"
 	}
+	if c.ClientCert == "foreign-forced" {
+		o.NoClient = true
+		p, err := e2e.Start(o)
+		if err != nil {
+			return nil, err
+		}
+		fc := pk.Client["foreign"]
+		crt, err := tls.X509KeyPair([]byte(fc.Cert), []byte(fc.Key))
+		if err != nil {
+			p.Close()
+			return nil, err
+		}
+		ccfg := cert.ClientConfig{InsecureSkipVerify: c.Insecure}
+		ccfg.CaCertificate = pk.CA1
+		if err := p.C05AttachClient([]upstream.Upstream{&forcedUp{Upstream: p.Up, crt: &crt}}, ccfg, false); err != nil {
+			p.Close()
+			return nil, err
+		}
+		return p, nil
+	}
 	if c.ClientCert != "none" {
 		cc := pk.Client[c.ClientCert]
 		o.ClientCert = &cc
@@ -198,6 +224,33 @@ func start(c *c05Case) (*e2e.Pair, error) {
 		return nil, err
 	}
 	return p, nil
+}
+
+// forcedMgr / forcedUp: the real upstream connects with the client's own TLS configuration, except that the
+// foreign certificate is presented unconditionally.
+type forcedMgr struct {
+	inner cert.TlsConfig
+	crt   *tls.Certificate
+}
+
+func (m *forcedMgr) GetTlsConfig() (*tls.Config, error) {
+	conf, err := m.inner.GetTlsConfig()
+	if err != nil {
+		return conf, err
+	}
+	conf.Certificates = nil
+	crt := m.crt
+	conf.GetClientCertificate = func(*tls.CertificateRequestInfo) (*tls.Certificate, error) { return crt, nil }
+	return conf, nil
+}
+
+type forcedUp struct {
+	upstream.Upstream
+	crt *tls.Certificate
+}
+
+func (u *forcedUp) Connect(manager cert.TlsConfig, mustSecure bool) error {
+	return u.Upstream.Connect(&forcedMgr{inner: manager, crt: u.crt}, mustSecure)
 }
 
 const probeByte = 0xC5
@@ -262,7 +315,7 @@ func probe(p *e2e.Pair) (obs string, info map[string]interface{}) {
 		// The application's connection is over. Did the server open the target before that? A barrier
 		// connection goes through the target's accept queue (FIFO): whatever the server dialled earlier
 		// comes out before it.
-		bc, err := net.Dial("tcp", t.Addr)
+		bc, err := net.Dial(t.Network, t.Addr)
 		if err != nil {
 			info["barrier"] = err.Error()
 			return "inconclusive", info
@@ -414,6 +467,7 @@ func coreTLS() []*c05Case {
 		}
 		add("Good", false, "none", true, hs[0])
 		add("Good", false, "foreign", true, hs[0])
+		add("Good", false, "foreign-forced", true, hs[0])
 		add("Good", false, "own", true, hs[0])
 		add("Untrusted", true, "none", false, hs[0])
 	}
